@@ -349,6 +349,8 @@ def check_variant(arg):
                         fail('engine_gets_exactly_the_requested_roots', p, TRUE, 'requested %s = %s, engine roots %s' % (requested, want, roots))
                 if keys is not None:
                     for u in T:
+                        if sh.projects[u[0]]['targets'][u[1]] == 'aggregate':
+                            continue      # (whether an aggregate is an engine target of its own or flattened into its dependents is representation)
                         fail('engine_gets_the_dependency_closure', p, o_reach[u] != z3.BoolVal(u in keys), '%s %s among the engine targets' % (u, 'is' if u in keys else 'is not'))
             if clean and (ran or verdict == 'Ok'):
                 rm_files = {e[2] for e in dels if e[1] == 'remove_file'}
